@@ -351,6 +351,11 @@ func c20Plan(thorough bool) *plan {
 		// three threads on the three checksummed frames
 		scs = append(scs, pairScenario("sse x szse x sample frames", []*rm.Value{valenum.Distinct(frames["sse"]), valenum.Distinct(frames["szse"]), valenum.Distinct(frames["sample"])}))
 	}
+	// the checksum services themselves: two (three) threads computing checksums of different inputs at the same time,
+	// starting from the pristine package state (a table built lazily at first use is built inside the explored schedule)
+	for _, alg := range []string{"CRC16", "CRC32", "SSE_BIN", "SZSE_BIN"} {
+		scs = append(scs, checksumScenario(alg, 2), checksumScenario(alg, 3))
+	}
 	p := &plan{scenarios: scs, outcome: func(x *vrt.Exec) string { return "ok" }}
 	if thorough {
 		p.bounds, p.caps = []int{2, 1}, []int64{40000, 1 << 40}
@@ -395,4 +400,44 @@ func replayGlobals(path string, v *ev.Violation) int {
 	}
 	fmt.Printf("VIOLATION property=C20 replay=%s\n  global-state-changed: %v\n", path, changed)
 	return 1
+}
+
+func calcService(alg string, data []byte) (int64, bool) {
+	svc, ok := codec.Get(alg)
+	if !ok {
+		return 0, false
+	}
+	buf := bytes.NewBuffer(data)
+	switch x := svc.(type) {
+	case codec.ChecksumService[*bytes.Buffer, uint16]:
+		return int64(x.Calc(buf)), true
+	case codec.ChecksumService[*bytes.Buffer, uint32]:
+		return int64(x.Calc(buf)), true
+	case codec.ChecksumService[*bytes.Buffer, int32]:
+		return int64(x.Calc(buf)), true
+	}
+	return 0, false
+}
+
+func checksumScenario(alg string, threads int) *scenario {
+	inputs := [][]byte{[]byte("123456789"), {0xFF, 0x80, 0x01, 0x7F, 0x00, 0xA5}, bytes.Repeat([]byte{0xC3, 0x3C}, 40)}[:threads]
+	return &scenario{Name: fmt.Sprintf("checksum %s x%d", alg, threads), Setup: func() ([]func(), func(x *vrt.Exec) *finding) {
+		restoreGlobals()
+		got := make([]int64, threads)
+		okv := make([]bool, threads)
+		bodies := make([]func(), threads)
+		for i := range bodies {
+			i := i
+			bodies[i] = func() { got[i], okv[i] = calcService(alg, append([]byte{}, inputs[i]...)) }
+		}
+		return bodies, func(x *vrt.Exec) *finding {
+			for i := range bodies {
+				want := int64(rm.Checksum(alg, inputs[i]))
+				if !okv[i] || got[i] != want {
+					return &finding{Kind: "result-differs-from-sequential", Detail: fmt.Sprintf("thread %d: %s over %x = %d (service found: %v), reference %d", i, alg, inputs[i], got[i], okv[i], want)}
+				}
+			}
+			return nil
+		}
+	}}
 }
